@@ -11,7 +11,7 @@ pub fn part_sweep(tier: Tier) -> Part {
     let mut part = Part::new("memory-register-sweep");
     let (bodies, cfgs) = match tier {
         Tier::Quick => (corpus::quick_bodies(), vec![Config::default_cfg()]),
-        Tier::Thorough => (corpus::quick_bodies(), vec![Config::default_cfg(), Config { toolchain: "stable".into(), opt: 1, dwarf: 5, pie: true }]),
+        Tier::Thorough => (corpus::quick_bodies(), vec![Config::default_cfg(), Config { toolchain: "stable".into(), opt: 0, dwarf: 5, pie: true }]),
     };
     part.rule = "at two stops of each program (in main, inside a callee): every read window (start = word boundary -8..+8, length 0..=17) on the stack and in the last 16 bytes before every unmapped hole is compared with /proc/pid/mem; a word write at every alignment x 3 values must change exactly [a, a+8); 15 general registers x 4 values are written, read back, and checked with an independent PTRACE_GETREGS (no other register moves); with a breakpoint on every instruction of the function the disassembly must show the file's instructions. Distinct non-trivial = windows of length > 0 / writes / register writes".into();
     let progs = match corpus::build_many(&bodies, &cfgs).and_then(prepare) {
